@@ -198,6 +198,62 @@ def o3(tier):
     return ob.done(cases=len(paths))
 
 
+def o6(tier):
+    """after a crash between the OpenMLS merge and the record update the stored record lags behind the MLS state: the exporter secret must follow the MLS state"""
+    from mirsym.api import Ob, Opaque, ev_is, vname, uid_of
+    from mirsym import contracts as C
+    ob = Ob('O6', 'MDK::exporter_secret: every secret looked up, exported, saved or returned is that of the epoch of the loaded MLS group (MlsGroup::epoch), never of the epoch in the stored '
+                  'group record, which lags behind after a crash between merge_staged_commit and the record update (the re-delivered events could then never be decrypted)', pure=C.PURE_MLS)
+    f = ob.fn('mdk-core', 'MDK::exporter_secret')
+    paths = ob.explore(f, [Opaque('self', '&MDK<Storage>'), Opaque('group_id', '&GroupId')])
+    n_ok = n_hit = n_miss = 0
+    for p in paths:
+        if p.kind == 'panic':
+            ob.require(False, 'O6/panic', p.msg, p); continue
+        if vname(p.ret) != 'Ok':
+            continue
+        n_ok += 1
+        u = lambda v: uid_of(ob.eng, p.st, v)
+        ld = [e for e in p.trace if ev_is(e, 'load_mls_group')]
+        if not ob.require(bool(ld) and u(ld[0].args[1]) == 'group_id', 'O6/no-mls-load', 'a secret is returned without loading the MLS group of the asked group id', p):
+            continue
+        mls = u(ld[0].ret) + '.Ok.0.Some.0'
+        want = f'GroupEpoch::as_u64(MlsGroup::epoch({mls}))'
+        lk = [e for e in p.trace if ev_is(e, 'get_group_exporter_secret')]
+        for e in lk:
+            ob.require(u(e.args[1]) == 'group_id' and u(e.args[2]) == want, 'O6/lookup-epoch-source',
+                       f'the exporter secret is looked up for ({u(e.args[1])}, {u(e.args[2])[:100]}), not for the epoch of the MLS group ({want})', p)
+        sv = [e for e in p.trace if ev_is(e, 'save_group_exporter_secret')]
+        ex = [e for e in p.trace if ev_is(e, 'export_secret')]
+        ret = u(p.ret)
+        if sv:
+            n_miss += 1
+            ob.require(bool(ex) and u(ex[0].args[0]) == mls, 'O6/export-source', 'the secret saved is not exported from the loaded MLS group', p)
+            from mirsym.values import Agg
+            rec = sv[0].args[1]
+            ep = None
+            if isinstance(rec, Agg):
+                names = rec.names or []
+                ep = rec.fields[names.index('epoch')] if 'epoch' in names else (rec.fields[1] if len(rec.fields) > 1 else None)
+            ob.require(ep is not None and u(ep) == want, 'O6/save-epoch-source', f'the exported secret is saved under epoch {u(ep)[:120] if ep is not None else u(rec)[:120]}, not under the epoch of the MLS group', p)
+        else:
+            n_hit += 1
+            ob.require(len(lk) == 1 and u(lk[0].ret) in ret, 'O6/return-source', f'the secret returned ({ret[:120]}) is not the one found for the epoch of the MLS group', p)
+    ob.require(n_hit >= 1 and n_miss >= 1, 'O6/vacuity', f'ok paths {n_ok}: cached {n_hit}, exported {n_miss}')
+    ob.r.bounds = {'paths': 'all'}
+    ob.r.vacuity.append(f'{len(paths)} paths; {n_hit} cached, {n_miss} exported')
+    return ob.done(cases=len(paths))
+
+
+def o5(tier):
+    """a write repeated after a crash replaces the interrupted one completely"""
+    from props import C10
+    r = C10.o4(tier)
+    r.oid = 'O5'
+    r.title = 'SQLite (shared with C10-O4): every upsert overwrites every non-key column, so an operation retried after a crash (same rumor, new wrapper event) leaves the row of the retry, not a mix with the interrupted attempt'
+    return r
+
+
 def run(tier, seed, only=None):
     out = []
     if not only or 'O1' in only:
@@ -218,4 +274,14 @@ def run(tier, seed, only=None):
         r4 = C02.o3(tier); r4.oid = 'O4'
         r4.title = 'own echo (shared with C02-O3): the message is confirmed BEFORE its processed record is (save_message, then save_processed_message), so a crash between the two writes is healed by the retry instead of being stopped by the dedup gate'
         out.append(r4)
+    if not only or 'O5' in only:
+        try:
+            out.append(o5(tier))
+        except S.SqlError as e:
+            r = Result('O5', 'sqlsym', 'upserts')
+            r.broken(f'SQL engine: {e}')
+            out.append(r)
+    if not only or 'O6' in only:
+        from mirsym.api import guard
+        out.append(guard(o6)(tier))
     return out
